@@ -107,9 +107,22 @@ def execute(cases, tier):
         spec = None
         kept = changed = 0
         # the rewritten file re-parses to the same number of records apart from blank-line records (C05 covers formatting)
-        b2 = [r for r in before if r[0] != "newline"]
-        a2 = [r for r in after if r[0] != "newline"]
-        v2 = [v for r, v in zip(before, verd) if r[0] != "newline"] if len(verd) == len(before) else None
+        # comment blocks separated only by blank-looking lines are one block once written (FormatSpec.meaning merges them, see C05):
+        # merge adjacent comment records on both sides before comparing the record sequences
+        def merge(recs, vs):
+            out, vo = [], []
+            for i, r in enumerate(recs):
+                if r[0] == "newline":
+                    continue
+                if r[0] == "comment" and out and out[-1][0] == "comment":
+                    out[-1] = ["comment", out[-1][1] + r[1]]
+                    continue
+                out.append(r)
+                if vs is not None:
+                    vo.append(vs[i])
+            return out, (vo if vs is not None else None)
+        b2, v2 = merge(before, verd if len(verd) == len(before) else None)
+        a2, _ = merge(after, None)
         if len(b2) != len(a2):
             spec = "contradicts L1 (C07_file_frame): %d records before, %d after the update" % (len(b2), len(a2))
         else:
